@@ -151,8 +151,13 @@ def is_valid_name(n):
 
 
 # ---- case construction -----------------------------------------------------------------
-def gen_ops(rng, has_doc, oneline, cur_name, stats, is_lambda=False):
+def gen_ops(rng, has_doc, oneline, cur_name, stats, is_lambda=False, text=""):
     ops = []
+    # CPython 3.12.1's tokenizer reports the END column of a string token that spans several lines short by the number
+    # of extra UTF-8 bytes on the token's FIRST line ('é' before a multi-line docstring on the def line: (2, 25) instead
+    # of (2, 26)); asttokens and replace_docstring take the position from it.  Not modelx: a one-line definition that
+    # holds non-ASCII text gets no documentation with a line break (which would create exactly that layout)
+    tok_bug = oneline and any(ord(ch) > 127 for ch in text)
     if rng.random() < 0.8:
         ops.append({"op": "recreate"})
     for _ in range(rng.choice([0, 1, 1, 2, 3])):
@@ -166,6 +171,9 @@ def gen_ops(rng, has_doc, oneline, cur_name, stats, is_lambda=False):
             if not is_lambda:
                 if not G.safe_doc(d):
                     stats["filtered_D31_unsafe_doc"] += 1
+                    continue
+                if tok_bug and "\n" in d:
+                    stats["filtered_cpython_tokenizer_multiline_string_end"] = stats.get("filtered_cpython_tokenizer_multiline_string_end", 0) + 1
                     continue
                 if oneline and not has_doc:      # D30 is repaired in /repo: generated again
                     stats["oneline_doc_edits_without_docstring"] = stats.get("oneline_doc_edits_without_docstring", 0) + 1
@@ -236,7 +244,7 @@ def build_def_case(rng, mode, stats):
         case["getter"] = t["name"]
         name = info.get("given_name")
     has_doc = bool(info.get("doc_lit")) if info["oneline"] else bool(info.get("doc_nlines"))
-    case["ops"] = gen_ops(rng, has_doc, info["oneline"], name or t["name"], stats)
+    case["ops"] = gen_ops(rng, has_doc, info["oneline"], name or t["name"], stats, text=text)
     cur = name or t["name"]
     for o in case["ops"]:
         if o["op"] == "rename":
@@ -245,7 +253,7 @@ def build_def_case(rng, mode, stats):
         case["ops"].append(gen_redefine(rng, cur, stats))
         i2 = case["ops"][-1]["info"]
         hd = bool(i2.get("doc_lit")) if i2["oneline"] else bool(i2.get("doc_nlines"))
-        case["ops"] += [o for o in gen_ops(rng, hd, i2["oneline"], cur, stats) if o["op"] != "rename"][:2]
+        case["ops"] += [o for o in gen_ops(rng, hd, i2["oneline"], cur, stats, text=case["ops"][-1]["file_body"]) if o["op"] != "rename"][:2]
     return case
 
 
